@@ -1323,13 +1323,15 @@ func (vc *VC) checkBackEdge(fr *Frame, li *loopInfo, eo edgeOut, from *ssa.Basic
 	}
 	fr.curLoopHdr = h
 	env := vc.envAt(fr, eo.st)
+	var proved []string
 	for i, inv := range li.spec.Invs {
 		g := vc.evalBool(env, inv.Expr)
 		lab := inv.Label
 		if lab == "" {
 			lab = fmt.Sprint(i)
 		}
-		vc.oblige(fmt.Sprintf("loop%d.preserve", li.ordinal), lab, eo.cond, g, from.Instrs[len(from.Instrs)-1].Pos(), inv.Src)
+		vc.oblige(fmt.Sprintf("loop%d.preserve", li.ordinal), lab, eo.cond, mkImp(mkAnd(proved...), g), from.Instrs[len(from.Instrs)-1].Pos(), inv.Src)
+		proved = append(proved, vc.define("inv", SBool, g))
 	}
 	for _, lf := range li.frames {
 		cur := vc.heapGet(eo.st, lf.key).S
